@@ -23,7 +23,56 @@ SENTINEL = b"\xa5\x5a\xc3"
 
 
 def shards(tier, seed):
-    return list(range(len(TS.type_space(tier))))
+    return list(range(len(TS.type_space(tier)))) + ["identity"]
+
+
+SERIALS = sorted({0, 1, 0xF, 0x10, 0xABC, 0xABCD, 0xABCDE, 0xABCDEF, 0xABCDEF0, 0x0FFFFFFF, 0x10000000, 0x80000000, 0xFFFFFFFF, 0x00000A0B, 0x0F000000, 0xDEADBEEF})
+
+
+def run_identity(rep, tier):
+    """Identity objects: decode(encode(v)) == v for the module identity (the one the library encodes), and both identity decoders
+    consume exactly their bytes.  Values: every field of the reference identity swept on its own (C16's sweeps) and serial numbers
+    of every hex length."""
+    import io
+    from pycomm3.custom_types import ModuleIdentityObject, ListIdentityObject
+    from vmc.checks import c16
+    from vmc.ref import wire as W
+
+    def cases():
+        for f, idn in c16.sweeps(tier, tier == "thorough"):
+            yield f, idn
+        for s in SERIALS:
+            for name in (b"", b"1756-L83E/B"):
+                yield "serial", dict(c16.base(), serial=s, product_name=name)
+
+    for f, idn in cases():
+        want = c16.expected(idn, "module")
+        prob = None
+        if want["vendor"] != "UNKNOWN" and want["product_type"] != "UNKNOWN":
+            enc = _try(ModuleIdentityObject.encode, want)
+            if enc[0] != "ok":
+                prob = ("encode-raises", f"ModuleIdentityObject.encode({want!r:.140}) -> {enc!r:.100}")
+            else:
+                st = io.BytesIO(bytes(enc[1]) + b"TAIL")
+                back = _try(ModuleIdentityObject.decode, st)
+                if back != ("ok", want):
+                    prob = ("roundtrip", f"ModuleIdentityObject.decode(encode(v)) = {back!r:.160} for v = {want!r:.160}")
+                elif st.read() != b"TAIL":
+                    prob = ("stream", f"ModuleIdentityObject.decode left the stream at the wrong place after {want!r:.100}")
+                elif bytes(enc[1]) != W.identity_body(idn):
+                    prob = ("bytes", f"ModuleIdentityObject.encode({want!r:.100}) = {bytes(enc[1]).hex()}, identity object bytes are {W.identity_body(idn).hex()}")
+        if prob is None:
+            li = W.list_identity_item(idn)[2:]
+            st = io.BytesIO(li + b"TAIL")
+            got = _try(ListIdentityObject.decode, st)
+            if got != ("ok", c16.expected(idn, "list")):
+                prob = ("list-decode", f"ListIdentityObject.decode -> {got!r:.160}, identity {c16.expected(idn, 'list')!r:.160}")
+            elif st.read() != b"TAIL":
+                prob = ("stream", "ListIdentityObject.decode left the stream at the wrong place")
+        rep.case(("identity", f, idn["serial"], repr(idn["product_name"]), idn["vendor"], idn["product_type"], idn["product_code"], idn["major"], idn["minor"], bytes(idn["status"]), idn.get("ip"), idn.get("state"), idn.get("encap_version")), outcome="ok:identity" if prob is None else prob[0])
+        if prob:
+            rep.violation(f"identity/{prob[0]}/{f}", prob[1], {"clause": "identity", "tier": tier})
+    rep.sample({"type": "ModuleIdentityObject / ListIdentityObject", "serials": ["%08x" % s for s in SERIALS[:6]]})
 
 
 def describe(tier, seed):
@@ -148,6 +197,9 @@ def check_node(rep, node, tier, idx):
 
 def run_shard(shard, tier, seed):
     rep = Report()
+    if shard == "identity":
+        run_identity(rep, tier)
+        return rep
     node = TS.type_space(tier)[shard]
     check_node(rep, node, tier, shard)
     rep.add("types", 1)
@@ -155,6 +207,12 @@ def run_shard(shard, tier, seed):
 
 
 def replay(r):
+    if r.get("clause") == "identity":
+        rep = Report()
+        run_identity(rep, r["tier"])
+        for s, vs in rep.violations.items():
+            print("  violates:", s, "::", vs[0].msg[:300])
+        return not rep.violations
     node = TS.type_space(r["tier"])[r["type_index"]]
     v = node.values(r["tier"])[r["value_index"]]
     print("type :", node.label)
